@@ -206,8 +206,21 @@ def run_case(case):
         else:
             from pathlib import Path
             try:
-                s2p.convert_slices_in_directory([Path(d) for d in dirs], dest, code,
-                                                options=opts)
+                if case["vseed"] % 2:
+                    s2p.convert_slices_in_directory([Path(d) for d in dirs], dest, code,
+                                                    options=opts)
+                else:
+                    # library entry point with lists owned by the caller: they are inputs
+                    # and may be used again (here: the same conversion into a second
+                    # directory, which must give the same dataset)
+                    lists = [sorted(Path(d).iterdir()) for d in dirs]
+                    keep = [list(x) for x in lists]
+                    s2p.slices_to_raw_chunks(lists, dest, code, options=opts)
+                    obs["library_calls_with_caller_lists"] = 1
+                    if lists != keep:
+                        v.append({"kind": "caller-file-lists-modified",
+                                  "detail": f"{ctx}: the slice file lists passed in were "
+                                  "re-ordered by the call"})
             except Exception as exc:  # noqa: BLE001
                 err = f"{type(exc).__name__}: {str(exc)[:160]}"
         if err:
@@ -262,6 +275,8 @@ def gates(obs, tier):
         "stacks_longer_than_256_slices": obs.get("more_than_256_slices", 0) > 0,
         "rgb_directory_followed_by_another": obs.get(
             "rgb_followed_by_another_directory", 0) > 0,
+        "library_entry_point_with_caller_lists": obs.get(
+            "library_calls_with_caller_lists", 0) > 20,
         "unpadded_slice_names": obs.get("unpadded_names_with_10_or_more_slices", 0) > 0,
         "slices_wider_than_256_pixels": obs.get("more_than_256_pixels", 0) > 0,
     }
